@@ -224,6 +224,16 @@ func init() {
 	rtOnly := func(prop, scenario string, q, t int, floors map[string]int, rule string, nontrivialKey string) {
 		registry[prop] = func(run *harness.Run) int {
 			fs, ev, inc := rtPart(run, scenario, q, t, floors)
+			if prop == "C14" { // "UpdateState itself never blocks indefinitely while the loops run": also under a message flood
+				f2, e2, i2 := rtPart(run, "flood", 4, 60, map[string]int{"C12 floods judged": 4})
+				for i := range f2 {
+					if f2[i].Prop == "C12" {
+						f2[i].Prop, f2[i].Rule = "C14", "update-state-blocks:"+f2[i].Rule
+					}
+				}
+				fs, inc = append(fs, f2...), append(inc, i2...)
+				ev["rt_flood"] = e2
+			}
 			counters := ev["rt_counters"].(map[string]int)
 			cov := map[string]interface{}{
 				"evaluations":         counters[nontrivialKey],
